@@ -41,6 +41,8 @@ type Case struct {
 	KeyID      string
 	Validity   uint64
 	Identifier string
+	// ViaConf: the signer is built from the "signer" map of a gensign configuration
+	ViaConf bool
 }
 
 var (
@@ -115,6 +117,7 @@ func gen(t *rapid.T) Case {
 		Validity:   rapid.SampledFrom([]uint64{0, 1, 43200, 1 << 40}).Draw(t, "validity"),
 		Identifier: rapid.SampledFrom([]string{"ssh-user-key", "", "slot é"}).Draw(t, "identifier"),
 	}
+	c.ViaConf = rapid.Bool().Draw(t, "viaConf")
 	n := rapid.IntRange(0, 4).Draw(t, "n")
 	for i := 0; i < n; i++ {
 		c.Endpoints = append(c.Endpoints, genEndpoint(t, fmt.Sprintf("e%d", i)))
@@ -189,10 +192,10 @@ func exec(c Case) (vh.Outcome, error) {
 	if ips == nil {
 		ips = []string{}
 	}
-	signer, err := crypki.NewSigner(crypki.SignerConfig{
+	signer, err := vh.NewCrypkiSigner(crypki.SignerConfig{
 		TLSClientKeyFile: f.ClientKeyFile(), TLSClientCertFile: f.ClientCertFile(), TLSCACertFiles: []string{f.CAFile("caA")},
 		CrypkiEndpoints: ips, CrypkiPort: uint(g.Port), Retries: 1, PerTryTimeout: perTry,
-	})
+	}, c.ViaConf && len(ips) > 0)
 	if err != nil {
 		return out, vh.Errf("NewSigner failed for %d endpoints: %v", len(ips), err)
 	}
@@ -347,7 +350,7 @@ func behaviours(c Case) []string {
 	return b
 }
 
-const rule = "endpoint lists of length 0..4 over 127.0.0.2..5 sharing one port, served by real gRPC-over-TLS Signing servers; per endpoint: signs 1..3 certificates (small ones, rarely one of 64 KiB / 130 KiB) with comment shapes (none, one word, several words, non-ASCII, a key-type look-alike, 4 KB, 70 KB), RPC error with any status code 1..16, empty key text, unparsable key text, no listener, hangs past the per-try deadline (rare); real crypki.NewSigner with real TLS material, retries = 1; 1..3 Sign calls on the same Signer, with endpoints recovering or starting to fail after the first call, at RPC level (status code) and at connection level (an address without listener starts listening; a listening one goes away); a tenth of the cases enter Sign with a cancelled or expired context (deadline failure of every endpoint); request fields generated (0..8 principals, KeyID, validity, identifier, extensions, critical options). Oracle: contacted = the prefix up to and including the first signing endpoint, in order, each once, each receiving a request proto.Equal to the input; result = that endpoint's certificates and comments, same length, CA order; no signing endpoint or an empty list => non-nil error, never (nil, nil, nil). Non-trivial: a failing endpoint before a signing one, or all failing."
+const rule = "endpoint lists of length 0..4 over 127.0.0.2..5 sharing one port, served by real gRPC-over-TLS Signing servers; per endpoint: signs 1..3 certificates (small ones, rarely one of 64 KiB / 130 KiB) with comment shapes (none, one word, several words, non-ASCII, a key-type look-alike, 4 KB, 70 KB), RPC error with any status code 1..16, empty key text, unparsable key text, no listener, hangs past the per-try deadline (rare); real crypki signer (NewSigner, or NewSignerWithGensignConf from a configuration map) with real TLS material, retries = 1; 1..3 Sign calls on the same Signer, with endpoints recovering or starting to fail after the first call, at RPC level (status code) and at connection level (an address without listener starts listening; a listening one goes away); a tenth of the cases enter Sign with a cancelled or expired context (deadline failure of every endpoint); request fields generated (0..8 principals, KeyID, validity, identifier, extensions, critical options). Oracle: contacted = the prefix up to and including the first signing endpoint, in order, each once, each receiving a request proto.Equal to the input; result = that endpoint's certificates and comments, same length, CA order; no signing endpoint or an empty list => non-nil error, never (nil, nil, nil). Non-trivial: a failing endpoint before a signing one, or all failing."
 
 func TestC17Failover(t *testing.T) {
 	vh.Run(t, vh.Spec[Case]{Property: "C17", Name: "TestC17Failover", Rule: rule, Gen: gen, Exec: exec})
